@@ -114,6 +114,39 @@ def loop_never_ending_item_case(rng):
     return {"program": prog, "scripts": scripts, "input": {"tag": "T1", "items": [{"tag": "i%d" % k} for k in range(n)]}, "shape": "loop-with-never-ending-item/%s/n=%d" % (ending, n), "outcome": dict(outcome, loop="item %d never ends" % hang_at)}
 
 
+def skipped_loop_case(rng):
+    """A loop that never gets its items (they, or its wait_for, need the output of a step that fails) feeds the only outputs,
+    while an unrelated step never ends; also loops whose parallelism comes from the input (0 and negative values included)."""
+    from ..model import Step
+    sub = gen.sub_program("sub.yaml", 1)
+    variant = rng.choice(["items-from-failed-step", "wait_for-failed-step", "parallelism-from-input"])
+    steps, outcome = [], {}
+    if variant == "parallelism-from-input":
+        loop = Step("loop", "foreach", sub=sub, items=Expr(In("items")), parallelism=Expr(In("n")))
+        steps = [loop]
+        inp = {"tag": "T1", "n": rng.choice([0, 0, -1, 1, 2]), "items": [{"tag": "i%d" % k} for k in range(rng.choice([1, 3]))]}
+    else:
+        a = gen.plugin_step("a", Expr(In("tag")))
+        outcome["a"] = rng.choice(["error", "crash", "deployfail", "alt"])
+        if variant == "items-from-failed-step":
+            loop = Step("loop", "foreach", sub=sub, items=[{"tag": gen.tagref("a")}, {"tag": "k"}], parallelism=rng.choice([1, 2]))
+        else:
+            loop = Step("loop", "foreach", sub=sub, items=Expr(In("items")), wait_for=Expr(Ref("a", "outputs", "success")))
+        steps = [a, loop]
+        inp = {"tag": "T1", "items": [{"tag": "i0"}, {"tag": "i1"}]}
+    outs = {"success": {"d": Expr(Ref("loop", "outputs", "success", "data"))}}
+    if rng.random() < 0.4:
+        # (an output on the loop's `failed` stage makes this the known finding about stages of steps that never start)
+        outs["failed"] = {"e": Expr(Ref("loop", "failed", "error"))}
+    nz = rng.choice([0, 1, 1])
+    for i in range(nz):
+        steps.append(gen.plugin_step("z%d" % i, Expr(In("tag"))))
+        outcome["z%d" % i] = "hang"
+    rng.shuffle(steps)
+    prog = Program(steps, outs, gen.BASE_INPUT)
+    return {"program": prog, "scripts": gen.make_scripts(steps, outcome), "input": inp, "shape": "skipped-loop/%s+%d-never-ending" % (variant, nz), "outcome": outcome}
+
+
 def run(check):
     n = check.pick(400, 6000)
     check.rule = ("generated workflow programs (all shapes of vlib.gen incl. fan-in up to 45 producers) x outcome vectors "
@@ -137,7 +170,9 @@ def run(check):
                 opts["triggers"] = g["triggers"]
         elif r < 0.22:
             g = loop_never_ending_item_case(rng)
-        elif r < 0.40:
+        elif r < 0.28:
+            g = skipped_loop_case(rng)
+        elif r < 0.44:
             k = rng.choice([2, 7, 19, 20, 21, 22, 25, 33, 45])
             g = fan_in_case(rng, k, rng.choice(["all-fail", "all-error", "first-fail", "last-fail", "mixed", "one-hangs-rest-fail"]))
         else:
